@@ -235,7 +235,7 @@ def optionalHook (m : ModId) (cb : Cb) (present : Bool) : Prog Int := do
   let s ← getSt
   let outer := currOfMod s m
   modify (setCurrOf m (some m))
-  let b ← if present then callCb cb m else pure true
+  let b ← (if present then callCb cb m else pure true)
   modify (setCurrOf m outer)
   let s ← getSt
   -- on_stop's result is ignored by the C code (`bool_ret` stays true)
@@ -335,10 +335,7 @@ def stopP (m : ModId) (stopping : Bool) : Prog Int := do
     setState s1 m (if stopping then .stopped else .paused)
   let s ← getSt
   let hasStop := match s.mods[m]? with | some md => md.hooks.stop | none => false
-  let ret ← if stopping then do
-      modify fun s => resetModule s m
-      optionalHook m .stop hasStop
-    else pure 0
+  let ret ← (if stopping then (do modify (fun s => resetModule s m); optionalHook m .stop hasStop) else pure 0)
   if ret == ENOENT then pure ret
   else do
     modify fun s => tellSystem s none (some m) T_MOD_STOPPED
@@ -347,12 +344,12 @@ def stopP (m : ModId) (stopping : Bool) : Prog Int := do
 /-- `start(mod, starting)` -/
 def startP (m : ModId) (starting : Bool) : Prog Int := do
   -- init_pubsub_fd: a fresh pipe and its internal source
-  if starting then modify fun s => s.updMod m fun md => { md with pipe := some [] }
+  modify fun s => if starting then s.updMod m (fun md => { md with pipe := some [] }) else s
   modify fun s => manageSrcsAdd s m
   modify fun s => setState (s.updCtxId (s.ctxIdOf m) fun c => { c with running := c.running + 1 }) m .running
   let s ← getSt
   let hasStart := match s.mods[m]? with | some md => md.hooks.start | none => false
-  let ret ← if starting then optionalHook m .start hasStart else pure 0
+  let ret ← (if starting then optionalHook m .start hasStart else pure 0)
   if ret == 0 then do
     modify fun s => tellSystem s none (some m) T_MOD_STARTED
     pure 0
